@@ -507,7 +507,8 @@ def run(tier, seed, acc, procs=None):
         'bounds': {'resize_depth': depth, 'events': len(EVENTS), 'starts': list(STARTS)},
         'assumptions': ["Simpson's rule is only judged for uniformly spaced centres / odd sample counts, as the statement says",
                         'exact piecewise-linear integrals in Fractions'],
-        'require': {'integrate': 50, 'bin:trapz:nm': 20, 'bin:simps:um': 20, 'refused-events': 50, 'resize-states': 50, 'crop-units': 8, 'bin:foreign-unit': 40, 'bin:integer-centres': 30},
+        'require': {'integrate': 50, 'bin:trapz:nm': 20, 'bin:simps:um': 20, 'crop-units': 8, 'bin:foreign-unit': 40, 'bin:integer-centres': 30},
+        'expect': {'refused-events': 50, 'resize-states': 50},
     }
 
 
